@@ -376,6 +376,37 @@ def run(fx, chk, tier):
                     chk.require(base in ("self.trafs", "self.moof_offsets"), "R-INDEX", "%s|use|%s" % (nm, base), "index applied to %s" % base,
                                 "%s applies the fragment index to %s" % (nm, base), site_of(fn, t.get("line")))
         chk.floor("R-INDEX", "uses of the fragment index", users, 5)
+    # ---------------- R-FRESH: the tracks of a newly opened reader start without fragments
+    chk.rule("R-FRESH", "every Mp4Track of a reader being opened is built from its trak box (From<&TrakBox>), never copied from a reader that may already hold fragments")
+    from packs_common import reader_entries
+    from mir import strip_generics
+    rclo = cg.closure(reader_entries(fx))
+    nfresh = 0
+    for nm, fn_ in (("read_header", rh), ("read_fragment_header", rf)):
+        sub = [fn_["id"]] + [k for k in fx.fns if k.startswith(fn_["id"] + "::{closure")]
+        built = False
+        for fid in sub:
+            b_ = body_of(fx.fns[fid])
+            if b_ is None:
+                continue
+            for bb, t in b_.calls():
+                cid = callee_path(t["callee"])
+                cf = fx.fns.get(cid)
+                # a constructor of Mp4Track from a trak box: an associated function (inherent or From impl) that takes a
+                # &TrakBox and returns Mp4Track
+                if cf is not None and short((cf.get("impl") or {}).get("self_ty", "")) == "Mp4Track" and any("TrakBox" in str(x) for x in (cf.get("inputs_s") or cf.get("inputs") or [])) \
+                        and "Mp4Track" in str(cf.get("output_s") or cf.get("output") or "Self").replace("Self", "Mp4Track"):
+                    built = True
+        nfresh += 1
+        chk.require(built, "R-FRESH", nm + "|built-from-trak", "tracks are constructed with Mp4Track::from(&TrakBox)", "%s does not build its tracks from the trak boxes with Mp4Track::from" % nm, site_of(fn_))
+    for fid in sorted(rclo):
+        b_ = body_of(fx.fns[fid])
+        if b_ is None or fx.fns[fid].get("derived"):
+            continue
+        for bb, t in b_.calls():
+            if strip_generics(t["callee"].get("path") or "") == "core::clone::Clone::clone" and "Mp4Track" in (t["callee"].get("full") or ""):
+                chk.bad("R-FRESH", "%s|clone" % short(fid), "a track (or the track table) is cloned: fragments already attached to the source reader would be carried into the new one and numbered before the segment's own runs", site_of(fx.fns[fid], t.get("line")))
+    chk.floor("R-FRESH", "open functions checked", nfresh, 2)
     # ---------------- R-UNITS
     import units
     chk.rule("R-UNITS", "every operation of the fragmented lookup branches combines dimensionally compatible quantities (units, absolute/relative, file/fragment scope, 64-bit sums)")
